@@ -263,7 +263,15 @@ func trimStack(b []byte) string {
 	var keep []string
 	for _, l := range lines {
 		if strings.Contains(l, "/repo/") || strings.Contains(l, "gotree") {
-			keep = append(keep, strings.TrimSpace(l))
+			// no addresses: the message of a case must be the same on every run
+			l = strings.TrimSpace(l)
+			if i := strings.Index(l, " +0x"); i >= 0 {
+				l = l[:i]
+			}
+			if i := strings.LastIndex(l, "("); i >= 0 && strings.Contains(l[i:], "0x") {
+				l = l[:i]
+			}
+			keep = append(keep, l)
 		}
 		if len(keep) >= 8 {
 			break
